@@ -40,7 +40,9 @@ def parse(lines):
         elif k == "K":
             d = _kv(tk[2:]); evs.append(("K", int(d["t"])))
         elif k == "R":
-            d = _kv(tk); evs.append(("R", int(d["n"]), int(d["t"])))
+            d = _kv(tk)
+            if "n" in d: evs.append(("R", int(d["n"]), int(d["t"])))
+            else: evs.append(("T", int(d.get("t", "0"))))      # run() left by an exception
         elif k == "Q":
             d = _kv(tk); evs.append(("Q", int(d["t"])))
         elif k == "X":
@@ -137,6 +139,17 @@ def check(lines):
             continue
         if k == "Q":
             observe_time(ev[1], "end")
+            continue
+        if k == "T":
+            # exception out of run(): everything pending was cancelled, the simulation is stopped
+            observe_time(ev[1], "run-exception")
+            stopped = True
+            for v in ref.t.values():
+                if v["armed"]:
+                    v["armed"] = False
+                    if v["waiter"] is not None:
+                        started[v["waiter"]]["state"] = "aborted"; v["waiter"] = None
+            prev_R = None
             continue
         if k == "H":
             h = ev[1][1:]; t = ev[2]; ec = ev[3]
